@@ -56,8 +56,37 @@ def check(repo, col, tier):
     _init_value(repo, col)
     col.rule("R-C10-derived", "derived parameters are computed from the overridden values", 1)
     derived_after_overrides(repo, col, "R-C10-derived")
+    col.rule("R-C10-order", "overrides given later are applied later", 1)
+    override_order(repo, col, "R-C10-order")
     col.rule("R-C10-paramsource", "the step reads every physical quantity from the `params` / states it is given, never from the module's tables", 6)
     param_source(repo, col, "R-C10-paramsource")
+
+
+def override_order(repo, col, R):
+    """data_set(): the entries of `param_state` are applied in list order by get_all_parameters / get_all_states (each `.at[rows].set`
+    overwrites what an earlier entry wrote).  A later data_set call must therefore come LATER in the list -- the new entry is appended
+    (`old + [new]`, `old += [new]`, `.append`); prepended, the earlier of two overlapping calls wins and the value given last is
+    ignored (its gradient is zero)."""
+    fi = repo.method("Module", "data_set")
+    ex = idx.expander(repo, fi)
+    ps = fi.params[3] if len(fi.params) > 3 else "param_state"
+    r = ex.merged_return() if len(ex.returns) != 1 else ex.returns[0]
+    if r is None:
+        raise AnalysisError("Module.data_set returns nothing")
+    cats = [x for x in r.walk() if x.op == "binop" and x.name == "+" and any(a_.op == "param" and a_.name == ps for a_ in x.args)]
+    ext = [s_ for s_ in ex.stores if s_.kind == "mcall" and s_.key.name in ("append", "extend", "insert") and s_.base.op == "param" and s_.base.name == ps]
+    if not cats and not ext:
+        col.unk(R, fi, "a later data_set entry is applied after the earlier ones", f"how the new entry joins `{ps}` was not recognised in {r.short(80)}", node=fi.node)
+        return
+    for x in cats:
+        first_is_old = x.args[0].op == "param" and x.args[0].name == ps
+        col.check(first_is_old, R, fi, "a later data_set entry is applied after the earlier ones", f"{ps} + [new entry]",
+                  f"the new entry is put IN FRONT of the existing ones (`{x.short(70)}`): entries are applied in list order, so for two "
+                  f"overlapping data_set calls the earlier value overwrites the later one", node=x.node or fi.node)
+    for s_ in ext:
+        ok = s_.key.name in ("append", "extend")
+        col.check(ok, R, fi, "a later data_set entry is applied after the earlier ones", f"{ps}.{s_.key.name}(new entry)",
+                  f"`{unparse(s_.node)[:60]}` does not put the new entry at the end", node=s_.node)
 
 
 def param_source(repo, col, R):
